@@ -9,10 +9,18 @@ from ..core.astutil import (u, dotted, walk_local, calls_in, call_name, kwarg, n
                             assigned_targets, body_nodoc, subst, parent_map, single_assign_value, inline_locals)
 from ..core.loader import AnchorError, Undecided
 from ..core.report import Ctx
+from .c36 import Normalizer  # refactoring-tolerant normalisation (helper inlining, alias/constant propagation, idioms)
 
 EXP = "src/porepy/viz/exporter.py"
 TSC = "src/porepy/numerics/time_step_control.py"
 MDG = "src/porepy/grids/md_grid.py"
+ADU = "src/porepy/numerics/ad/ad_utils.py"
+# functions the rules anchor on: never inlined into their callers by the normaliser
+KEEP = {"_sort_and_unify_data", "_update_constant_mesh_data", "_export_data_vtu", "_export_mdg_pvd", "_update_meshio_geom",
+        "_export_grid", "_export_grid_0d", "_export_grid_1d", "_export_grid_2d", "_export_grid_3d", "_simplex_cell_to_nodes",
+        "_export_simplex_3d", "_export_hexahedron_3d", "_test_hex_meshio_format", "_export_polyhedron_3d", "_write",
+        "_append_folder_name", "_make_file_name", "_num_grid_entities", "_from_vector_format", "_save_to_mdg",
+        "_to_vector_format", "_build_field", "_add_data"}
 
 META = {
     "explanation": (
@@ -42,7 +50,7 @@ META = {
                     "cell data reaches files only through Exporter._write"],
     "technique": "writer/reader table extraction with block-local symbolic resolution; permutation direction (gather vs scatter) matching",
 }
-MIN_INSTANCES = {"R1": 7, "R2": 9, "R3": 6, "R4": 3, "R5": 6, "R6": 9, "R7": 1}
+MIN_INSTANCES = {"R1": 7, "R2": 7, "R3": 6, "R4": 3, "R5": 6, "R6": 9, "R7": 1}
 
 
 # ----------------------------------------------------------------------------------------
@@ -112,6 +120,10 @@ def _seq_env(stmts: list[ast.stmt], upto: ast.stmt):
             if isinstance(t, ast.Name):
                 env[t.id] = subst(s.value, env)  # type: ignore[assignment]
                 stores.pop(t.id, None)
+                if isinstance(s.value, ast.Name) and s.value.id in stores:   # `value = ungrouped`: same object
+                    stores[t.id] = list(stores[s.value.id])
+                    if s.value.id in env:
+                        env[t.id] = env[s.value.id]
             elif isinstance(t, ast.Subscript) and isinstance(t.value, ast.Name):
                 stores.setdefault(t.value.id, []).append((subst(t.slice, env), subst(s.value, env)))  # type: ignore[arg-type]
             else:
@@ -152,12 +164,29 @@ def _is_attr(e: ast.expr, attr: str) -> bool:
 
 # ----------------------------------------------------------------------------------------
 
+def _role_keep(fn: ast.FunctionDef) -> set[str]:
+    """Nested helpers the rules analyse by role (whatever they are called): never inlined."""
+    out = set()
+    for n in ast.walk(fn):
+        if isinstance(n, ast.FunctionDef) and n is not fn:
+            names = {call_name(c) for c in ast.walk(n) if isinstance(c, ast.Call)}
+            if names & {"set_solution_values", "get_solution_values", "ravel", "reshape", "flatten", "hstack"}:
+                out.add(n.name)
+    return out
+
+
 def run(ctx: Ctx) -> None:
     exp = ctx.repo.module(EXP)
     E = exp.cls("Exporter")
-    F = {n: exp.func(f"Exporter.{n}") for n in
-         ("_write", "import_state_from_vtu", "import_from_pvd", "write_pvd", "_export_mdg_pvd", "_export_data_vtu",
-          "_update_meshio_geom", "_sort_and_unify_data", "_make_file_name", "_num_grid_entities")}
+    norm = Normalizer(exp)
+    raw = {n: exp.func(f"Exporter.{n}") for n in
+           ("_write", "import_state_from_vtu", "import_from_pvd", "write_pvd", "_export_mdg_pvd", "_export_data_vtu",
+            "_update_meshio_geom", "_sort_and_unify_data", "_make_file_name", "_num_grid_entities")}
+    keep = set(KEEP)
+    for f in raw.values():
+        keep |= _role_keep(f)
+    # normalised deep copies: private one-level helpers inlined, aliases / module constants propagated, idioms unified
+    F = {n: norm.function(f, E, inline=True, keep=keep) for n, f in raw.items()}
     savers = _nested(F["import_state_from_vtu"], lambda f: any(call_name(c) == "set_solution_values" for c in calls_in(f)))
     if len(savers) != 1:
         raise AnchorError(f"{EXP}: per-grid saver (nested function calling set_solution_values) not found in import_state_from_vtu")
@@ -165,7 +194,7 @@ def run(ctx: Ctx) -> None:
     tables = _geometry_tables(ctx, exp, F)                      # {'subdomains': attr, 'interfaces': attr}
     _r1_gather_scatter(ctx, exp, F, saver, tables)
     _r2_iteration(ctx, exp, F, saver)
-    _r3_renumbering(ctx, exp, E)
+    _r3_renumbering(ctx, exp, E, norm, keep)
     _r4_vector_format(ctx, exp, F)
     _r5_time_information(ctx)
     _r6_pvd(ctx, exp, F)
@@ -183,41 +212,48 @@ def _r7_latest_step(ctx: Ctx, exp, F) -> None:
     sorted(..., key=float)[-1], or any ordering applied to values converted with float() first."""
     fn = F["import_from_pvd"]
     q = "Exporter.import_from_pvd"
-    # the list of strings: appended from data["timestep"]
-    apps = [c for c in ast.walk(fn) if isinstance(c, ast.Call) and call_name(c) == "append" and c.args
-            and "timestep" in u(c.args[0])]
-    if not apps:
-        raise AnchorError(f"{q}: collection of the timestep attributes not found")
-    lst = u(apps[0].func.value)  # type: ignore[attr-defined]
-    converted = any(isinstance(n, ast.Call) and isinstance(n.func, ast.Name) and n.func.id == "float" for n in ast.walk(apps[0].args[0]))
-    # the variable later compared with the timestep attribute
-    cmps = [n for n in ast.walk(fn) if isinstance(n, ast.Compare) and len(n.ops) == 1 and isinstance(n.ops[0], ast.Eq)
-            and any(isinstance(x, ast.Name) for x in (n.left, n.comparators[0]))]
+    ORDER = ("max", "min", "sorted", "unique", "sort", "argsort", "argmax")
+
+    def mentions_timestep(e: ast.AST) -> bool:
+        return any(isinstance(n, ast.Constant) and n.value == "timestep" for n in ast.walk(e))
+
+    # the collection of time step strings: a list appended in a loop, or a comprehension
+    collections: dict[str, list[ast.expr]] = {}
+    for c in ast.walk(fn):
+        if isinstance(c, ast.Call) and call_name(c) == "append" and c.args and isinstance(c.func, ast.Attribute) \
+                and isinstance(c.func.value, ast.Name) and mentions_timestep(c.args[0]):
+            collections.setdefault(c.func.value.id, []).append(c.args[0])
+    for st in stmts_local(fn):
+        if isinstance(st, ast.Assign) and len(st.targets) == 1 and isinstance(st.targets[0], ast.Name) \
+                and isinstance(st.value, (ast.ListComp, ast.SetComp, ast.GeneratorExp)) and mentions_timestep(st.value.elt):
+            collections.setdefault(st.targets[0].id, []).append(st.value.elt)
     sel = None
-    for c in cmps:
-        for x in (c.left, c.comparators[0]):
-            if isinstance(x, ast.Name):
-                a = [st for st in stmts_local(fn) if isinstance(st, ast.Assign) and len(st.targets) == 1 and u(st.targets[0]) == x.id]
-                if len(a) == 1 and lst in u(inline_locals(fn, a[0].value, stop=[lst])):
-                    sel = a[0]
+    for st in stmts_local(fn):
+        if isinstance(st, ast.Assign) and len(st.targets) == 1 and isinstance(st.targets[0], ast.Name):
+            e = inline_locals(fn, st.value, stop=list(collections))
+            ocs = [n for n in ast.walk(e) if isinstance(n, ast.Call) and call_name(n) in ORDER
+                   and (any(nm in collections for a_ in n.args for nm in names_in(a_)) or any(mentions_timestep(a_) for a_ in n.args))]
+            if ocs:
+                sel = (st, e, ocs)
+                break
     if sel is None:
-        raise Undecided(f"{q}: cannot find how the restart time step is selected from `{lst}`")
-    e = inline_locals(fn, sel.value, stop=[lst])
+        if not collections:
+            raise AnchorError(f"{q}: collection of the timestep attributes not found")
+        raise Undecided(f"{q}: cannot find how the restart time step is selected from {sorted(collections)}")
+    st, e, order_calls = sel
     txt = u(e)
-    numeric = converted
-    order_calls = [n for n in ast.walk(e) if isinstance(n, ast.Call) and call_name(n) in ("max", "min", "sorted", "unique", "sort", "argsort", "argmax")]
-    if not order_calls:
-        raise Undecided(f"{q}: selection `{txt}` uses no recognised ordering")
+    is_float = lambda n: isinstance(n, ast.Call) and isinstance(n.func, ast.Name) and n.func.id == "float"  # noqa: E731
+    numeric = any(is_float(n) for elts in collections.values() for x in elts for n in ast.walk(x))
     for oc in order_calls:
         k = kwarg(oc, "key")
         if k is not None and u(k) == "float":
             numeric = True
-        if any(isinstance(n, ast.Call) and isinstance(n.func, ast.Name) and n.func.id == "float" for a_ in oc.args for n in ast.walk(a_)):
+        if any(is_float(n) for a_ in oc.args for n in ast.walk(a_)):
             numeric = True
         if any(isinstance(n, ast.Call) and call_name(n) in ("astype", "asarray", "array") and "float" in u(n) for a_ in oc.args for n in ast.walk(a_)):
             numeric = True
     latest = any(call_name(oc) in ("max", "argmax") for oc in order_calls) or txt.rstrip().endswith("[-1]")
-    ctx.check("R7", numeric and latest, exp, q, sel,
+    ctx.check("R7", numeric and latest, exp, q, st,
               f"the restart time step is selected by `{txt}`: the time steps are strings and must be ordered as numbers "
               f"(lexicographically '10.0' < '9.0': with steps 0..10 step 9 is restored)" if not numeric else
               f"the selection `{txt}` does not pick the latest step", construct=f"{q}: selection of the latest time step",
@@ -247,53 +283,128 @@ def _geometry_tables(ctx: Ctx, exp, F) -> dict[str, str]:
     return out
 
 
-def _geom_choice(e: ast.expr):
-    """`self.T1[dim] if <test> else self.T2[dim]` -> (test text, T1, T2)."""
-    if isinstance(e, ast.IfExp) and all(isinstance(x, ast.Subscript) and isinstance(x.value, ast.Attribute)
-                                        and u(x.value.value) == "self" for x in (e.body, e.orelse)):
-        return u(e.test), e.body.value.attr, e.orelse.value.attr  # type: ignore[union-attr]
+def _table_of(e: ast.expr) -> str | None:
+    if isinstance(e, ast.Subscript) and isinstance(e.value, ast.Attribute) and u(e.value.value) == "self":
+        return e.value.attr
+    return None
+
+
+def _geom_choice(fn: ast.AST, e: ast.expr):
+    """`self.T1[dim] if <test> else self.T2[dim]` (expression, or the same as an if/else statement assigning the
+    variable `e` names) -> (test expr, T1, T2)."""
+    if isinstance(e, ast.Name):
+        v = single_assign_value(fn, e.id)
+        if v is not None:
+            return _geom_choice(fn, v)
+        for iff in [s for s in ast.walk(fn) if isinstance(s, ast.If) and len(s.body) == 1 and len(s.orelse) == 1]:
+            a, b = iff.body[0], iff.orelse[0]
+            if all(isinstance(x, (ast.Assign, ast.AnnAssign)) and [u(t) for t in assigned_targets(x)] == [e.id] for x in (a, b)) \
+                    and _table_of(a.value) and _table_of(b.value):
+                return iff.test, _table_of(a.value), _table_of(b.value)
+        return None
+    if isinstance(e, ast.IfExp) and _table_of(e.body) and _table_of(e.orelse):
+        return e.test, _table_of(e.body), _table_of(e.orelse)
+    return None
+
+
+def _positive(test: ast.expr) -> tuple[str, bool]:
+    """-> (text of the un-negated test, polarity)."""
+    pol = True
+    while isinstance(test, ast.UnaryOp) and isinstance(test.op, ast.Not):
+        test, pol = test.operand, not pol
+    return u(test), pol
+
+
+def _kinds_in(stmts: list[ast.stmt]) -> set[str]:
+    return {k for k in ("subdomains", "interfaces") for x in stmts if _mdg_calls(x, k)}
+
+
+def _kind_when(scope: ast.AST, test: ast.expr) -> str | None:
+    """Which grids does `scope` fetch from the mdg when `test` holds?  Understands if/else, swapped arms
+    (`if not test`), conditional expressions and an early-returning arm followed by the other case."""
+    want, pol = _positive(test)
+    pm = parent_map(scope)
+    for n in ast.walk(scope):
+        when_true = when_false = None
+        if isinstance(n, ast.If) and _positive(n.test)[0] == want:
+            p2 = _positive(n.test)[1]
+            kb, ke = _kinds_in(n.body), _kinds_in(n.orelse)
+            if not n.orelse and n.body and isinstance(n.body[-1], (ast.Return, ast.Continue, ast.Raise)):
+                blk = None
+                par = pm.get(n)
+                for fld in ("body", "orelse", "finalbody"):
+                    lst = getattr(par, fld, None)
+                    if isinstance(lst, list) and any(x is n for x in lst):
+                        blk = lst
+                if blk is not None:
+                    ke = _kinds_in(blk[[i for i, x in enumerate(blk) if x is n][0] + 1:])
+            if len(kb) == 1 and len(ke) == 1 and kb != ke:
+                when_true, when_false = (next(iter(kb)), next(iter(ke))) if p2 else (next(iter(ke)), next(iter(kb)))
+        elif isinstance(n, ast.IfExp) and _positive(n.test)[0] == want:
+            p2 = _positive(n.test)[1]
+            kb = {k for k in ("subdomains", "interfaces") if _mdg_calls(n.body, k)}
+            ke = {k for k in ("subdomains", "interfaces") if _mdg_calls(n.orelse, k)}
+            if len(kb) == 1 and len(ke) == 1 and kb != ke:
+                when_true, when_false = (next(iter(kb)), next(iter(ke))) if p2 else (next(iter(ke)), next(iter(kb)))
+        if when_true is not None:
+            return when_true if pol else when_false
     return None
 
 
 # ---------------- R1 ----------------------------------------------------------------------------
+
+def _writer_sites(w: ast.FunctionDef):
+    """Places where _write builds the per-block data: (ids variable, geometry parameter, block expressions, node)."""
+    wp = _params(w)
+    sites = []
+    for n in walk_local(w):
+        if isinstance(n, ast.For) and _is_attr(n.iter, "cell_ids") and isinstance(n.iter.value, ast.Name) and n.iter.value.id in wp \
+                and isinstance(n.target, ast.Name):
+            elts = [c.args[0] for c in calls_in(n) if isinstance(c.func, ast.Attribute) and c.func.attr == "append" and len(c.args) == 1]
+            sites.append((n.target.id, n.iter.value.id, elts, n))
+        if isinstance(n, (ast.ListComp, ast.GeneratorExp)) and len(n.generators) == 1 and _is_attr(n.generators[0].iter, "cell_ids") \
+                and isinstance(n.generators[0].iter.value, ast.Name) and n.generators[0].iter.value.id in wp \
+                and isinstance(n.generators[0].target, ast.Name) and not n.generators[0].ifs:
+            sites.append((n.generators[0].target.id, n.generators[0].iter.value.id, [n.elt], n))
+    return sites
+
 
 def _r1_gather_scatter(ctx: Ctx, exp, F, saver, tables) -> None:
     # ---- writer ----
     w = F["_write"]
     qw = "Exporter._write"
     wp = _params(w)
-    loops = [s for s in stmts_local(w) if isinstance(s, ast.For) and _is_attr(s.iter, "cell_ids")
-             and isinstance(s.iter.value, ast.Name) and s.iter.value.id in wp and isinstance(s.target, ast.Name)]
-    if len(loops) != 1:
-        raise Undecided(f"{qw}: expected one loop `for ids in <geometry parameter>.cell_ids`, found {len(loops)}")
-    loop = loops[0]
-    ids = loop.target.id
-    geom_param = loop.iter.value.id
-    appends = [c for c in calls_in(loop) if isinstance(c.func, ast.Attribute) and c.func.attr == "append" and len(c.args) == 1]
-    if not appends:
-        raise Undecided(f"{qw}: no block appended inside the loop over cell_ids")
+    sites = _writer_sites(w)
+    if not sites or len({g for _, g, _, _ in sites}) != 1:
+        raise Undecided(f"{qw}: no loop/comprehension `for ids in <geometry parameter>.cell_ids` building the blocks found")
+    geom_param = sites[0][1]
+    all_ids = {i for i, _, _, _ in sites}
+    if not any(elts for _, _, elts, _ in sites):
+        raise Undecided(f"{qw}: no block built inside the iteration over cell_ids")
     w_transposes: set[int] = set()
-    for c in appends:
-        e, t = _strip_T(c.args[0])
-        if not (isinstance(e, ast.Subscript) and _is_attr(e.value, "values")):
-            raise Undecided(f"{qw}: appended block `{u(c.args[0])}` is not a subscript of <field>.values")
-        sl = e.slice
-        if ids not in names_in(sl):
-            ok, axis = False, -1  # an index that does not involve the block's ids cannot select the block's cells
-        elif isinstance(sl, ast.Name):
-            ok, axis = sl.id == ids, 0
-        elif isinstance(sl, ast.Tuple) and len(sl.elts) == 2 and isinstance(sl.elts[0], ast.Slice) and u(sl.elts[0]) in (":", "::"):
-            ok, axis = isinstance(sl.elts[1], ast.Name) and sl.elts[1].id == ids, 1
-            w_transposes.add(t)
-        else:
-            raise Undecided(f"{qw}: gather index `{u(sl)}` not recognised")
-        ctx.check("R1", ok, exp, qw, c,
-                  f"each block must hold the values of its own cells: <field>.values gathered with the loop variable `{ids}` "
-                  f"on the cell axis; found {u(c.args[0])}", construct=f"_write block: {u(c.args[0])}",
-                  facts={"axis": axis, "transposes": t})
+    for ids, _, elts, node in sites:
+        for blk in elts:
+            e, t = _strip_T(blk)
+            if not isinstance(e, ast.Subscript):
+                raise Undecided(f"{qw}: block `{u(blk)}` is not a subscript of the field values")
+            sl = e.slice
+            if ids not in names_in(sl):
+                ok, axis = False, -1  # an index that does not involve the block's ids cannot select the block's cells
+            elif isinstance(sl, ast.Name):
+                ok, axis = sl.id == ids, 0
+            elif isinstance(sl, ast.Tuple) and len(sl.elts) == 2 and ((isinstance(sl.elts[0], ast.Slice) and u(sl.elts[0]) in (":", "::"))
+                                                                     or (isinstance(sl.elts[0], ast.Constant) and sl.elts[0].value is Ellipsis)):
+                ok, axis = isinstance(sl.elts[1], ast.Name) and sl.elts[1].id == ids, 1
+                w_transposes.add(t)
+            else:
+                raise Undecided(f"{qw}: gather index `{u(sl)}` not recognised")
+            ctx.check("R1", ok, exp, qw, blk,
+                      f"each block must hold the values of its own cells: the field values gathered with the iteration variable `{ids}` "
+                      f"on the cell axis; found {u(blk)}", construct=f"_write block: {u(blk)}",
+                      facts={"axis": axis, "transposes": t})
     # point data: no permutation on the writer side
     pt_bad = [s for s in stmts_local(w) if isinstance(s, ast.Assign) and any(u(t).startswith("point_data[") for t in s.targets)
-              and ids in names_in(s.value)]
+              and (all_ids & names_in(s.value)) and not any(s in list(ast.walk(n)) for _, _, _, n in sites if isinstance(n, ast.stmt))]
     ctx.check("R1", not pt_bad, exp, qw, pt_bad[0] if pt_bad else w,
               "point data must not be permuted by cell ids", construct=u(pt_bad[0]) if pt_bad else "_write: point data unpermuted")
     # geometry handed to _write
@@ -305,11 +416,6 @@ def _r1_gather_scatter(ctx: Ctx, exp, F, saver, tables) -> None:
     garg = wcalls[0].args[pos] if pos < len(wcalls[0].args) else kwarg(wcalls[0], geom_param)
     if garg is None:
         raise Undecided("Exporter._export_data_vtu: geometry argument of _write not found")
-    if isinstance(garg, ast.Name):
-        ge = single_assign_value(dv, garg.id)
-        if ge is None:
-            raise Undecided(f"Exporter._export_data_vtu: geometry variable `{garg.id}` is not assigned exactly once")
-        garg = ge
     _check_table_choice(ctx, exp, dv, "Exporter._export_data_vtu", garg, tables, "writer")
 
     # ---- reader ----
@@ -331,7 +437,7 @@ def _r1_gather_scatter(ctx: Ctx, exp, F, saver, tables) -> None:
         key, val = c.args[0], c.args[1]
         if not isinstance(val, ast.Name):
             raise Undecided(f"{qr}: value passed to {saver.name} is not a local name")
-        verdict, why, gv = _classify_reader_value(val.id, u(key), env, stores)
+        verdict, why, gv = _classify_reader_value(val.id, u(key), env, stores, r)
         if verdict is None:
             raise Undecided(f"{qr}: cannot classify how `{val.id}` is obtained from the cell blocks ({why})")
         if gv:
@@ -355,43 +461,69 @@ def _r1_gather_scatter(ctx: Ctx, exp, F, saver, tables) -> None:
                   construct=f"reader point value: {u(e)}")
     # geometry used by the reader
     for gv in sorted(geom_vars):
-        ge = single_assign_value(r, gv)
-        if ge is None:
-            raise Undecided(f"{qr}: geometry variable `{gv}` is not assigned exactly once")
-        _check_table_choice(ctx, exp, r, qr, ge, tables, "reader", saver)
+        _check_table_choice(ctx, exp, r, qr, ast.Name(id=gv, ctx=ast.Load()), tables, "reader", saver)
     if not geom_vars and any(o.ok for o in ctx.obligations if o.rule == "R1" and "reader cell value" in o.desc):
         raise Undecided(f"{qr}: scatter accepted but geometry variable unknown")
 
 
-def _classify_reader_value(name: str, key: str, env, stores):
-    """-> (ok | None, description, geometry variable)."""
+def _classify_reader_value(name: str, key: str, env, stores, fn):
+    """-> (ok | None, description, geometry variable).  False only for positively recognised wrong forms."""
+    stop = _params(fn)
+
+    def staged(e: ast.expr, pred):
+        """Apply pred to e with function-level single-assignment locals inlined one level at a time."""
+        for _ in range(8):
+            r = pred(e)
+            if r:
+                return r
+            e2 = inline_locals(fn, e, stop=stop, depth=1)
+            if u(e2) == u(e):
+                break
+            e = e2
+        return None
+
+    def full(e: ast.expr) -> ast.expr:
+        # resolve plain names only (an expression that is a bare local name)
+        for _ in range(8):
+            if isinstance(e, ast.Name) and e.id not in stop and single_assign_value(fn, e.id) is not None:
+                e = single_assign_value(fn, e.id)
+            else:
+                break
+        return e
+
     def blocks(e):  # concatenation of <vtu>.cell_data[key]
-        src = _concat_source(e)
-        return (src is not None and isinstance(src, ast.Subscript) and _is_attr(src.value, "cell_data") and u(src.slice) == key)
+        def pred(x):
+            src = _concat_source(x)
+            return (src is not None and isinstance(src, ast.Subscript) and _is_attr(src.value, "cell_data") and u(src.slice) == key)
+        return bool(staged(e, pred))
 
     def ids_src(e):  # concatenation of <geom>.cell_ids -> geometry variable name
-        src = _concat_source(e)
-        if src is not None and _is_attr(src, "cell_ids") and isinstance(src.value, ast.Name):
-            return src.value.id
-        return None
+        def pred(x):
+            src = _concat_source(x)
+            if src is not None and isinstance(src, ast.Name) and src.id not in stop and single_assign_value(fn, src.id) is not None:
+                src = single_assign_value(fn, src.id)
+            if src is not None and _is_attr(src, "cell_ids") and isinstance(src.value, ast.Name):
+                return src.value.id
+            return None
+        return staged(e, pred)
 
     e = env.get(name)
     st = stores.get(name, [])
     if e is None:
         return None, "value not assigned in the block of the call", None
-    mentions_ids = any(_is_attr(n, "cell_ids") for x in [e] + [y for p in st for y in p] for n in ast.walk(x))
+    e = full(e)
     if not st:
         if blocks(e):
             return False, "blocks are concatenated and chopped without undoing the per-cell-type gather", None
         if isinstance(e, ast.Subscript) and blocks(e.value):
-            idx = e.slice
+            idx = full(e.slice)
             if isinstance(idx, ast.Call) and call_name(idx) == "argsort" and idx.args and ids_src(idx.args[0]):
                 return True, "gather of the concatenated blocks through argsort(concatenated cell_ids)", ids_src(idx.args[0])
             if ids_src(idx):
                 return False, "concatenated blocks are gathered with cell_ids again (applies the permutation twice instead of inverting it)", ids_src(idx)
         return (None, f"unrecognised expression {u(e)[:80]}", None)
     if len(st) == 1 and isinstance(e, ast.Call) and call_name(e) in ("empty_like", "zeros_like", "empty", "zeros"):
-        idx, rhs = st[0]
+        idx, rhs = full(st[0][0]), st[0][1]
         if not blocks(rhs):
             return None, f"scattered right-hand side {u(rhs)[:60]} is not the concatenation of cell_data[{key}]", None
         gv = ids_src(idx)
@@ -399,33 +531,25 @@ def _classify_reader_value(name: str, key: str, env, stores):
             return True, "scatter of the concatenated blocks through the concatenated cell_ids", gv
         if isinstance(idx, ast.Call) and call_name(idx) == "argsort" and idx.args and ids_src(idx.args[0]):
             return False, "scatter through argsort(cell_ids) (the permutation itself, not its inverse)", ids_src(idx.args[0])
-        if not mentions_ids:
-            return False, f"scatter index {u(idx)[:60]} does not derive from the geometry's cell_ids", None
         return None, f"scatter index {u(idx)[:80]} not recognised", None
     return None, "several stores into the value", None
 
 
 def _check_table_choice(ctx: Ctx, exp, fn, q, ge, tables, side, saver=None) -> None:
-    ch = _geom_choice(ge)
+    ch = _geom_choice(fn, ge)
     if ch is None:
         raise Undecided(f"{q}: geometry `{u(ge)[:80]}` is not `self.<table>[dim] if <flag> else self.<table>[dim]`")
     test, t_true, t_false = ch
     # which grids are iterated when <test> is true?
-    scope = saver if saver is not None else fn
-    it_true = None
-    for iff in [s for s in ast.walk(scope) if isinstance(s, ast.If) and u(s.test) == test]:
-        kb = [k for k in ("subdomains", "interfaces") if any(_mdg_calls(x, k) for x in iff.body)]
-        ke = [k for k in ("subdomains", "interfaces") if any(_mdg_calls(x, k) for x in iff.orelse)]
-        if len(kb) == 1 and len(ke) == 1 and kb != ke:
-            it_true = kb[0]
+    it_true = _kind_when(saver if saver is not None else fn, test)
     if it_true is None:
-        raise Undecided(f"{q}: no `if {test}:` choosing between subdomains and interfaces found")
+        raise Undecided(f"{q}: no branch on `{u(test)}` choosing between subdomains and interfaces found")
     it_false = "interfaces" if it_true == "subdomains" else "subdomains"
     ok = tables[it_true] == t_true and tables[it_false] == t_false
     ctx.check("R1", ok, exp, q, ge,
-              f"{side}: under `{test}` the {it_true} are iterated, whose geometry (cell_ids) is stored in self.{tables[it_true]}; "
+              f"{side}: under `{u(test)}` the {it_true} are iterated, whose geometry (cell_ids) is stored in self.{tables[it_true]}; "
               f"found self.{t_true} (and self.{t_false} otherwise)",
-              construct=f"{side} geometry: self.{t_true} if {test} else self.{t_false}")
+              construct=f"{side} geometry: self.{t_true} if {u(test)} else self.{t_false}")
 
 
 # ---------------- R2 ----------------------------------------------------------------------------
@@ -486,8 +610,11 @@ def _r2_iteration(ctx: Ctx, exp, F, saver) -> None:
         ecalls = [c for c in calls_in(dv) if isinstance(c.func, ast.Name) and c.func.id == bf.name]
         pos = bp.index(loops[0].iter.id)
         ent_args = {u(c.args[pos]) for c in ecalls if pos < len(c.args)}
-        ent_name = u(_enclosing_assign_target(dv, norm[("writer", "subdomains")][1]))
-        ok = ok and ent_args == {ent_name}
+        try:
+            ent_name = u(_enclosing_assign_target(dv, norm[("writer", "subdomains")][1]))
+        except Undecided:
+            ent_name = None
+        ok = ok and (ent_name is None or ent_args == {ent_name})
     elif loops:
         why = f"loop iterates {u(loops[0].iter)}"
     ctx.check("R2", ok, exp, f"Exporter._export_data_vtu.{bf.name}", hs[0] if hs else bf,
@@ -498,28 +625,60 @@ def _r2_iteration(ctx: Ctx, exp, F, saver) -> None:
         raise AnchorError("saver signature")
     valp, entp = sp[1], sp[2]
     q = sides["reader"][1]
-    loops = [s for s in ast.walk(saver) if isinstance(s, ast.For) and (_mdg_calls(s.iter, "subdomains") or _mdg_calls(s.iter, "interfaces"))]
-    if len(loops) != 2:
-        raise Undecided(f"{q}: expected two grid loops, found {len(loops)}")
-    w_slot = _writer_slot(F["_sort_and_unify_data"])
-    for loop in loops:
-        which = "subdomains" if _mdg_calls(loop.iter, "subdomains") else "interfaces"
+    # grid loops of the saver: `for g, d in self._mdg.<kind>(...)`, or over a name bound to such calls in if/else arms
+    loops: list[tuple[ast.For, list[tuple[str, ast.Call]]]] = []
+    for lp in [x for x in ast.walk(saver) if isinstance(x, ast.For)]:
+        kinds = [(k, c) for k in ("subdomains", "interfaces") for c in _mdg_calls(lp.iter, k)]
+        if not kinds and isinstance(lp.iter, ast.Name):
+            for st in stmts_local(saver):
+                if isinstance(st, (ast.Assign, ast.AnnAssign)) and getattr(st, "value", None) is not None \
+                        and any(isinstance(t, ast.Name) and t.id == lp.iter.id for t in assigned_targets(st)):
+                    kinds += [(k, c) for k in ("subdomains", "interfaces") for c in _mdg_calls(st.value, k)]
+        if kinds:
+            loops.append((lp, kinds))
+    if {k for _, ks in loops for k, _ in ks} != {"subdomains", "interfaces"} or len(loops) > 2:
+        raise Undecided(f"{q}: grid loops over subdomains and interfaces not found ({len(loops)} loop(s))")
+    w_slot = _writer_slot(ctx, F["_sort_and_unify_data"])
+    for loop, kinds in loops:
+        which = "/".join(sorted({k for k, _ in kinds}))
         if not (isinstance(loop.target, ast.Tuple) and len(loop.target.elts) == 2 and all(isinstance(x, ast.Name) for x in loop.target.elts)):
             raise Undecided(f"{q}: loop target {u(loop.target)} is not (grid, data)")
         gvar, dvar = loop.target.elts[0].id, loop.target.elts[1].id
-        rd = kwarg(loop.iter, "return_data") if isinstance(loop.iter, ast.Call) else None
-        if not (rd is not None and isinstance(rd, ast.Constant) and rd.value is True):
-            raise Undecided(f"{q}: loop over {which} without return_data=True")
+        for k, call in kinds:
+            rd = _call_args(ctx, call, MDG, f"MixedDimensionalGrid.{k}", skip_self=True).get("return_data")
+            if not (rd is not None and isinstance(rd, ast.Constant) and rd.value is True):
+                raise Undecided(f"{q}: loop over {k} without return_data=True")
         _check_offsets(ctx, exp, q, saver, loop, which, valp, entp, gvar)
         sets = [c for c in calls_in(loop) if call_name(c) == "set_solution_values"]
         if len(sets) != 1:
             raise Undecided(f"{q}: expected one set_solution_values per loop")
-        slot = {k.arg: u(k.value) for k in sets[0].keywords if k.arg in ("time_step_index", "iterate_index")}
-        d_ok = kwarg(sets[0], "data") is not None and u(kwarg(sets[0], "data")) == dvar
-        ctx.check("R2", slot == w_slot and d_ok, exp, q, sets[0],
+        sargs = _call_args(ctx, sets[0], ADU, "set_solution_values")
+        slot = {k: u(v) for k, v in sargs.items() if k in ("time_step_index", "iterate_index") and u(v) != "None"}
+        dtxt = u(sargs["data"]) if "data" in sargs else None
+        ctx.check("R2", slot == w_slot and dtxt == dvar, exp, q, sets[0],
                   f"reader must store into the data dictionary of the grid it chopped for and into the solution slot the "
-                  f"exporter reads ({w_slot}); found slot {slot}, data={u(kwarg(sets[0], 'data')) if kwarg(sets[0], 'data') is not None else None} "
-                  f"(loop data variable {dvar})", construct=f"reader slot ({which}): {slot} data={u(kwarg(sets[0], 'data')) if kwarg(sets[0], 'data') is not None else None}")
+                  f"exporter reads ({w_slot}); found slot {slot}, data={dtxt} (loop data variable {dvar})",
+                  construct=f"reader slot ({which}): {slot} data={dtxt}")
+
+
+def _call_args(ctx: Ctx, call: ast.Call, rel: str, qual: str, skip_self: bool = False) -> dict[str, ast.expr]:
+    """Arguments of a call by parameter name, using the callee's signature from the repository."""
+    try:
+        sig = _params(ctx.repo.module(rel).func(qual))
+    except AnchorError:
+        sig = []
+    if skip_self and sig:
+        sig = sig[1:]
+    out: dict[str, ast.expr] = {}
+    for i, a in enumerate(call.args):
+        if isinstance(a, ast.Starred) or i >= len(sig):
+            raise Undecided(f"call {u(call)[:70]} cannot be matched to the signature of {qual}")
+        out[sig[i]] = a
+    for k in call.keywords:
+        if k.arg is None:
+            raise Undecided(f"call {u(call)[:70]} uses **kwargs")
+        out[k.arg] = k.value
+    return out
 
 
 def _enclosing_assign_target(fn, call: ast.Call) -> ast.expr:
@@ -529,11 +688,12 @@ def _enclosing_assign_target(fn, call: ast.Call) -> ast.expr:
     raise Undecided("iteration result is not assigned to a name")
 
 
-def _writer_slot(fn) -> dict[str, str]:
+def _writer_slot(ctx: Ctx, fn) -> dict[str, str]:
     slots = set()
     for c in ast.walk(fn):
         if isinstance(c, ast.Call) and call_name(c) == "get_solution_values":
-            slots.add(tuple(sorted((k.arg, u(k.value)) for k in c.keywords if k.arg in ("time_step_index", "iterate_index"))))
+            a = _call_args(ctx, c, ADU, "get_solution_values")
+            slots.add(tuple(sorted((k, u(v)) for k, v in a.items() if k in ("time_step_index", "iterate_index") and u(v) != "None")))
     if len(slots) != 1:
         raise Undecided(f"exporter reads solution values from {len(slots)} different slots")
     return dict(slots.pop())
@@ -597,14 +757,28 @@ def _check_offsets(ctx: Ctx, exp, q, saver, loop: ast.For, which, valp, entp, gv
     ctx.check("R2", not problems, exp, q, loop,
               f"reader chops the concatenated data per grid ({which}): " + "; ".join(problems),
               construct=f"reader offsets ({which}): " + ("ok" if not problems else "; ".join(problems)), facts=facts,
-              desc=f"reader chops value[{off}:{off}+n] per {which[:-1]} and advances {off} by n once, after use")
+              desc=f"reader chops value[{off}:{off}+n] per grid ({which}) and advances {off} by n once, after use")
 
 
 # ---------------- R3 ----------------------------------------------------------------------------
 
-def _r3_renumbering(ctx: Ctx, exp, E: ast.ClassDef) -> None:
+def _root_name(e: ast.AST) -> str | None:
+    while True:
+        if isinstance(e, (ast.Subscript, ast.Attribute)):
+            e = e.value
+        elif isinstance(e, ast.Call) and isinstance(e.func, ast.Attribute) and e.func.attr in ("setdefault", "get"):
+            e = e.func.value
+        else:
+            break
+    return e.id if isinstance(e, ast.Name) else None
+
+
+def _r3_renumbering(ctx: Ctx, exp, E: ast.ClassDef, norm, keep) -> None:
     n = 0
-    for fn in [s for s in E.body if isinstance(s, ast.FunctionDef)]:
+    for raw_fn in [s for s in E.body if isinstance(s, ast.FunctionDef)]:
+        if not any(isinstance(r, ast.Return) and isinstance(r.value, ast.Call) and call_name(r.value) == "Meshio_Geom" for r in stmts_local(raw_fn)):
+            continue
+        fn = norm.function(raw_fn, E, inline=True, keep=keep, local_consts=False)  # keep `offset = 0` visible
         rets = [r for r in stmts_local(fn) if isinstance(r, ast.Return) and isinstance(r.value, ast.Call) and call_name(r.value) == "Meshio_Geom"]
         if not rets:
             continue
@@ -636,15 +810,26 @@ def _r3_renumbering(ctx: Ctx, exp, E: ast.ClassDef) -> None:
                 if not add <= S:
                     S |= add
                     changed = True
-        accs = []
+        accs = []     # statements extending the cell-id containers inside the grid loop
+        acc_val = {}  # id(statement) -> expression that is appended
         for s in ast.walk(loop):
+            val = None
             if isinstance(s, ast.AugAssign) and isinstance(s.op, ast.Add):
-                r = s.target
-                while isinstance(r, ast.Subscript):
-                    r = r.value
-                if isinstance(r, ast.Name) and r.id in S and not isinstance(s.target, ast.Name) or \
-                        (isinstance(s.target, ast.Name) and s.target.id in S and not _is_counter(s)):
-                    accs.append(s)
+                r = _root_name(s.target)
+                if r in S and (not isinstance(s.target, ast.Name) or not _is_counter(s)):
+                    val = s.value
+            elif isinstance(s, ast.Expr) and isinstance(s.value, ast.Call) and isinstance(s.value.func, ast.Attribute) \
+                    and s.value.func.attr == "extend" and len(s.value.args) == 1 and _root_name(s.value.func.value) in S:
+                val = s.value.args[0]   # ids.extend(...) / ids.setdefault(k, []).extend(...)
+            elif isinstance(s, ast.Assign) and len(s.targets) == 1 and isinstance(s.targets[0], (ast.Subscript, ast.Name)) \
+                    and _root_name(s.targets[0]) in S and isinstance(s.value, ast.BinOp) and isinstance(s.value.op, ast.Add) \
+                    and _root_name(s.targets[0]) in names_in(s.value):
+                val = s.value            # ids[k] = ids.get(k, []) + ...
+            if val is not None:
+                accs.append(s)
+                zero0 = [t.id for z in fn.body if isinstance(z, ast.Assign) and isinstance(z.value, ast.Constant) and z.value.value == 0
+                         for t in z.targets if isinstance(t, ast.Name)]
+                acc_val[id(s)] = inline_locals(fn, val, stop=list(ps) + zero0)
         top = loop.body
         problems: list[str] = []
         facts: dict = {"grids": grids, "accumulators": [u(a) for a in accs]}
@@ -666,11 +851,15 @@ def _r3_renumbering(ctx: Ctx, exp, E: ast.ClassDef) -> None:
         for a in accs:
             zero_init = {t.id for s in fn.body if isinstance(s, ast.Assign) and isinstance(s.value, ast.Constant) and s.value.value == 0
                          for t in s.targets if isinstance(t, ast.Name)}
-            cands = [nm for nm in sorted(names_in(a.value))
+            aval = acc_val[id(a)]
+            own = _root_name(a.targets[0]) if isinstance(a, ast.Assign) else None
+            cands = [nm for nm in sorted(names_in(aval))
                      if nm in zero_init or any(isinstance(s, ast.AugAssign) and isinstance(s.target, ast.Name) and s.target.id == nm
                                                for s in ast.walk(loop))]
             if not cands:
-                if any(isinstance(x, ast.BinOp) and isinstance(x.op, ast.Add) for x in ast.walk(a.value)):
+                adds = [x for x in ast.walk(aval) if isinstance(x, ast.BinOp) and isinstance(x.op, ast.Add)
+                        and not (own and own in names_in(x.left) and x is aval)]
+                if adds:
                     raise Undecided(f"{q}: `{u(a)}` adds something that is not a running offset")
                 problems.append(f"`{u(a)}`: cell ids of a grid are not shifted by the number of cells of the previous grids")
                 continue
@@ -721,11 +910,16 @@ def _order_of(call: ast.Call, pos: int) -> str:
 
 
 def _r4_vector_format(ctx: Ctx, exp, F) -> None:
-    tv = _nested(F["_sort_and_unify_data"], lambda f: f.name == "_to_vector_format")
-    fv = _nested(F["import_state_from_vtu"], lambda f: f.name == "_from_vector_format")
+    def has(names):
+        return lambda f: any(call_name(c) in names for c in calls_in(f))
+    tv = _nested(F["_sort_and_unify_data"], has({"reshape"}))
+    fv = [f for f in _nested(F["import_state_from_vtu"], has({"ravel", "flatten", "reshape"})) if not has({"set_solution_values"})(f)] \
+        or _nested(F["import_state_from_vtu"], has({"ravel", "flatten"}))
     if len(tv) != 1 or len(fv) != 1:
-        raise AnchorError(f"{EXP}: _to_vector_format/_from_vector_format not found")
+        raise AnchorError(f"{EXP}: vector-format conversion of the writer (reshape) / reader (ravel) not found")
     tv, fv = tv[0], fv[0]
+    if len(_params(tv)) < 2:
+        raise Undecided("writer vector-format helper: expected (value, num_dofs)")
     nd = _params(tv)[1]
     resh = [c for c in calls_in(tv) if call_name(c) == "reshape"]
     if len(resh) != 1:
@@ -742,9 +936,9 @@ def _r4_vector_format(ctx: Ctx, exp, F) -> None:
     # transposes applied by _write to 2-d data (cell and point arms must agree)
     w = F["_write"]
     ts_cell, ts_pt = set(), set()
-    for c in calls_in(w):
-        if isinstance(c.func, ast.Attribute) and c.func.attr == "append" and c.args:
-            e, t = _strip_T(c.args[0])
+    for _, _, elts, _ in _writer_sites(w):
+        for blk in elts:
+            e, t = _strip_T(blk)
             if isinstance(e, ast.Subscript) and isinstance(e.slice, ast.Tuple):
                 ts_cell.add(t)
     for s in stmts_local(w):
@@ -787,18 +981,31 @@ def _r4_vector_format(ctx: Ctx, exp, F) -> None:
 
 def _r5_time_information(ctx: Ctx) -> None:
     tm = ctx.repo.module(TSC)
-    wfn = tm.func("TimeManager.write_time_information")
-    lfn = tm.func("TimeManager.load_time_information")
-    sfn = tm.func("TimeManager.set_time_and_dt_from_exported_steps")
-    dumps = [c for c in calls_in(wfn) if dotted(c.func) == "json.dump"]
-    if len(dumps) != 1 or not dumps[0].args or not isinstance(dumps[0].args[0], ast.Dict):
-        raise Undecided("write_time_information: json.dump of a dict literal not found")
+    tnorm = Normalizer(tm)
+    TM = tm.cls("TimeManager")
+    wfn = tnorm.function(tm.func("TimeManager.write_time_information"), TM)
+    lfn = tnorm.function(tm.func("TimeManager.load_time_information"), TM)
+    sfn = tnorm.function(tm.func("TimeManager.set_time_and_dt_from_exported_steps"), TM)
+    dumps = [c for c in calls_in(wfn) if dotted(c.func) in ("json.dump", "json.dumps")]
+    if len(dumps) != 1 or not dumps[0].args:
+        raise Undecided("write_time_information: json.dump call not found")
+    darg = dumps[0].args[0]
+    if isinstance(darg, ast.Name):
+        darg = single_assign_value(wfn, darg.id) or darg
+    pairs: list[tuple[ast.expr | None, ast.expr]] = []
+    if isinstance(darg, ast.Dict):
+        pairs = list(zip(darg.keys, darg.values))
+    elif isinstance(darg, ast.Call) and u(darg.func) == "dict" and not darg.args and all(k.arg for k in darg.keywords):
+        pairs = [(ast.Constant(value=k.arg), k.value) for k in darg.keywords]
+    else:
+        raise Undecided(f"write_time_information: dumped object `{u(darg)[:60]}` is not a dict literal")
     written: dict[str, str] = {}
-    for k, v in zip(dumps[0].args[0].keys, dumps[0].args[0].values):
+    for k, v in pairs:
         if not (isinstance(k, ast.Constant) and isinstance(k.value, str) and isinstance(v, ast.Attribute) and u(v.value) == "self"):
             raise Undecided(f"write_time_information: entry {u(k) if k else None}: {u(v)} is not 'key': self.<attr>")
         written[k.value] = v.attr
-    loads = [s for s in stmts_local(lfn) if isinstance(s, ast.Assign) and isinstance(s.value, ast.Call) and dotted(s.value.func) == "json.load"]
+    loads = [s for s in stmts_local(lfn) if isinstance(s, ast.Assign) and isinstance(s.value, ast.Call)
+             and dotted(s.value.func) in ("json.load", "json.loads")]
     if len(loads) != 1 or not isinstance(loads[0].targets[0], ast.Name):
         raise Undecided("load_time_information: json.load not found")
     dvar = loads[0].targets[0].id
@@ -873,11 +1080,14 @@ def _r6_pvd(ctx: Ctx, exp, F) -> None:
     r = F["import_from_pvd"]
     q = "Exporter.import_from_pvd"
     rp = _params(r)
-    branch = [s for s in body_nodoc(r) if isinstance(s, ast.If) and isinstance(s.test, ast.Name) and s.test.id in rp and "mdg" in s.test.id]
+    branch = [s for s in body_nodoc(r) if isinstance(s, ast.If) and _positive(s.test)[0] in rp and "mdg" in _positive(s.test)[0]]
     if len(branch) != 1:
         raise AnchorError(f"{q}: branch on the mdg-pvd flag not found")
-    pairs = [("mdg pvd", branch[0].body, F["_export_mdg_pvd"], "Exporter._export_mdg_pvd"),
-             ("time-series pvd", branch[0].orelse, F["write_pvd"], "Exporter.write_pvd")]
+    mdg_body, ts_body = (branch[0].body, branch[0].orelse) if _positive(branch[0].test)[1] else (branch[0].orelse, branch[0].body)
+    if not mdg_body or not ts_body:
+        raise Undecided(f"{q}: branch on the mdg-pvd flag has an empty arm")
+    pairs = [("mdg pvd", mdg_body, F["_export_mdg_pvd"], "Exporter._export_mdg_pvd"),
+             ("time-series pvd", ts_body, F["write_pvd"], "Exporter.write_pvd")]
     for label, body, wfn, wq in pairs:
         tags, attrs = _templates(wfn)
         if not tags or not attrs:
@@ -960,8 +1170,14 @@ def _r6_pvd(ctx: Ctx, exp, F) -> None:
     if len(dp) != 1:
         raise Undecided("import_state_from_vtu: position rule of the dimension piece not found")
     v = dp[0].value
-    ok = u(v.body) == "-2" and u(v.orelse) == "-1" and isinstance(v.test, ast.Call) and call_name(v.test) == "isnumeric" \
-        and isinstance(v.test.func.value, ast.Subscript) and u(v.test.func.value.slice) == "-2"
+    vtest, vpol = v.test, True
+    while isinstance(vtest, ast.UnaryOp) and isinstance(vtest.op, ast.Not):
+        vtest, vpol = vtest.operand, not vpol
+    vtest = inline_locals(rs, vtest, stop=_params(rs))
+    if not (isinstance(vtest, ast.Call) and call_name(vtest) == "isnumeric" and isinstance(vtest.func.value, ast.Subscript)):
+        raise Undecided(f"import_state_from_vtu: test `{u(v.test)}` of the dimension position is not <pieces>[k].isnumeric()")
+    when_numeric, otherwise = (u(v.body), u(v.orelse)) if vpol else (u(v.orelse), u(v.body))
+    ok = when_numeric == "-2" and otherwise == "-1" and u(vtest.func.value.slice) == "-2"
     ctx.check("R6", ok, exp, "Exporter.import_state_from_vtu", dp[0],
               "the dimension is the second to last piece exactly when that piece is numeric (a time step follows it)",
               construct=f"dimension position: {u(v)}")
